@@ -743,6 +743,7 @@ class Interp:
         self.depth += 1
         if self.depth > 200: raise PathEnd('bound', 'call depth > 200')
         try:
+            if isinstance(callee, VStruct) and not callee.items: callee = callee.name      # fn item of a library function passed as a value
             if isinstance(callee, VEnum) and not callee.items:      # tuple-variant constructor used as a function value
                 return VEnum(callee.ty, callee.variant, list(args))
             if isinstance(callee, VFn):
